@@ -1,5 +1,6 @@
 import PyCraft.Props.C04
 import PyCraft.Props.C04Codec
+import PyCraft.Props.C04Wrap
 #print axioms PyCraft.C04.pos_rt
 #print axioms PyCraft.C04.pos_layout
 #print axioms PyCraft.C04.pos_dec_total
@@ -29,3 +30,8 @@ import PyCraft.Props.C04Codec
 #print axioms PyCraft.C04Codec.rec_rt_every_known_version
 #print axioms PyCraft.C04Codec.changed_reader_477_breaks
 #print axioms PyCraft.C04Codec.changed_record_reader_748_breaks
+#print axioms PyCraft.C04Wrap.pos_wraps
+#print axioms PyCraft.C04Wrap.wrap26_id_iff
+#print axioms PyCraft.C04Wrap.wrap12_id_iff
+#print axioms PyCraft.C04Wrap.pos_rt_iff_in_range
+#print axioms PyCraft.C04Wrap.pos_same_bytes_iff
